@@ -434,9 +434,9 @@ def run_case(ctx, i, rng):
             f'scheduler child failed for umask {u:03o} scenario {scen}: '
             + rep['error'][-1500:])
     rund = rep['run_dir']
-    # parent-side observation after the child has exited
+    # parent-side observation once the child has finished the case
     rep['checkpoints'].append(
-        {'at': 'parent:after_exit', 'judged': True, 'modes': _modes(rund),
+        {'at': 'parent:after_case', 'judged': True, 'modes': _modes(rund),
          'umask_now': None})
     permissive = (u & 0o066) != 0o066
     pre_wide = scen in ('stale_wide_keys', 'restart_wide_db',
